@@ -377,7 +377,9 @@ Fixpoint telab (p : prog) : option (rty * rir) :=
                 if fields_eqb r1 r2 then Some (RT (TT g1 r1 k1), TableUnion x1 x2) else None
               else
                 let v1 := value_fields r1 k1 in let v2 := value_fields r2 k2 in
-                if fields_eqb v1 v2 then Some (RT (TT g1 r1 k1), TableUnion x1 x2)       (* "nothing to unify": no select *)
+                (* "nothing to unify": no select.  Since e910686b1 the test is on the WHOLE row types (it used to compare the value
+                   types only and let through tables whose key field sits at another row position) *)
+                if fields_eqb r1 r2 then Some (RT (TT g1 r1 k1), TableUnion x1 x2)
                 else if negb ((length v1 =? length v2)%nat && nodupN (names v2)) then None  (* missing fields: outside the model *)
                 else
                   match unified_fields v1 v2 with
@@ -527,8 +529,6 @@ Fixpoint telab (p : prog) : option (rty * rir) :=
 Definition reported (p : prog) : option rty := option_map fst (telab p).
 Definition emitted (p : prog) : option rir := option_map snd (telab p).
 
-(* the guard of the partial theorem, (c): union(unify=True) of tables whose VALUE types coincide is sent without any select;
-   it is well-typed only if the whole ROW types coincide (the key fields may sit at different positions) *)
 (* the guard of the partial theorem: a matrix-row lookup into an interval-keyed table (a) is not into a table whose
    COMPOUND key starts with an interval and (b) uses a point of the type of the matrix's first row key field (the emitted
    MatrixAnnotateRowsTable joins on the ROW KEY, whatever the index expression is) *)
@@ -540,13 +540,7 @@ Fixpoint simple_interval_keys (p : prog) : bool :=
   | PMAnnotateRows p _ | PMAnnotateCols p _ | PMAnnotateEntries p _ | PMAnnotateGlobals p _
   | PMKeyRowsBy p _ | PMKeyColsBy p _ => simple_interval_keys p
   | PAnnotateIdx p r _ _ _ _ => simple_interval_keys p && simple_interval_keys r
-  | PUnion p q unify =>
-      simple_interval_keys p && simple_interval_keys q &&
-      match telab p, telab q with
-      | Some (RT (TT _ r1 k1), _), Some (RT (TT _ r2 k2), _) =>
-          negb unify || negb (fields_eqb (value_fields r1 k1) (value_fields r2 k2)) || fields_eqb r1 r2
-      | _, _ => true
-      end
+  | PUnion p q _ => simple_interval_keys p && simple_interval_keys q
   | PMAnnotateRowsIv m r _ k _ _ =>
       simple_interval_keys m && simple_interval_keys r &&
       match telab m, telab r with
